@@ -35,6 +35,9 @@ var keyHex = []string{
 // commit phase wait: the script driven modes have no clock (1 ms); the live mode keeps the default
 var commitTimeoutMS = 1
 
+// BFTSIM_SAMEBLOCK: all values share one block and differ in their certificate results only
+var sameBlock = os.Getenv("BFTSIM_SAMEBLOCK") != ""
+
 // live mode: the committee was last updated at the current root height and proposals are validated against it
 var strictBuildHeight = false
 
@@ -59,9 +62,10 @@ type world struct {
 	rootH   uint64
 	nodes   []*ctrl
 	out     []*sent
-	seeds   map[uint64][][]byte // root height -> LastProposers addresses (sortition seed)
-	values  map[string][]byte   // value tag -> block bytes
-	tagOf   map[string]string   // hex(block hash) -> value tag
+	seeds   map[uint64][][]byte               // root height -> LastProposers addresses (sortition seed)
+	values  map[string][]byte                 // value tag -> block bytes
+	tagOf   map[string]string                 // hex(block hash) + hex(results hash) -> value tag
+	resOf   map[string]*lib.CertificateResult // value tag -> certificate results
 	results *lib.CertificateResult
 	commits map[int]string // node -> committed value tag
 	commitQ map[int]*lib.QuorumCertificate
@@ -88,7 +92,7 @@ func (c *ctrl) ProduceProposal(be *bft.ByzantineEvidence, vdf *crypto.VDF) (uint
 	if !ok {
 		return 0, nil, nil, lib.ErrNilBlock()
 	}
-	return c.rootH, blk, c.w.results, nil
+	return c.rootH, blk, c.w.resOf[c.next], nil
 }
 func (c *ctrl) ValidateProposal(rc uint64, qc *lib.QuorumCertificate, ev *bft.ByzantineEvidence) (*lib.BlockResult, lib.ErrorI) {
 	if strictBuildHeight && rc != c.rootH { // live mode: the proposal must have been built at the root height the replicas know
@@ -126,7 +130,7 @@ func (w *world) gate(node int, qc *lib.QuorumCertificate) (string, error) {
 	if qc.Header.Phase != lib.Phase_PRECOMMIT_VOTE {
 		return "", lib.ErrWrongPhase()
 	}
-	tag, ok := w.tagOf[hex.EncodeToString(qc.BlockHash)]
+	tag, ok := w.tagOf[hex.EncodeToString(qc.BlockHash)+hex.EncodeToString(qc.ResultsHash)]
 	if !ok {
 		return "", fmt.Errorf("unknown block")
 	}
@@ -210,11 +214,16 @@ func blockHash(blk []byte) []byte {
 // newWorld builds the committee: names[i] is the spec name of validator i, byz marks Byzantine ones
 func newWorld(names []string, byz map[string]bool, power []uint64, valueTags []string) (*world, error) {
 	w := &world{names: names, byz: map[int]bool{}, rootH: 1, seeds: map[uint64][][]byte{}, values: map[string][]byte{},
-		tagOf: map[string]string{}, commits: map[int]string{}, commitQ: map[int]*lib.QuorumCertificate{}}
+		tagOf: map[string]string{}, resOf: map[string]*lib.CertificateResult{}, commits: map[int]string{}, commitQ: map[int]*lib.QuorumCertificate{}}
 	w.results = &lib.CertificateResult{RewardRecipients: &lib.RewardRecipients{PaymentPercents: []*lib.PaymentPercents{{Address: bytes.Repeat([]byte{1}, 20), Percent: 100, ChainId: chainID}}}, SlashRecipients: &lib.SlashRecipients{}}
 	for i, tag := range valueTags {
 		w.values[tag] = mkBlock(i + 1)
-		w.tagOf[hex.EncodeToString(blockHash(w.values[tag]))] = tag
+		w.resOf[tag] = w.results
+		if sameBlock && i > 0 { // the values differ in their certificate results only: same block as the first value
+			w.values[tag] = w.values[valueTags[0]]
+			w.resOf[tag] = &lib.CertificateResult{RewardRecipients: &lib.RewardRecipients{PaymentPercents: []*lib.PaymentPercents{{Address: bytes.Repeat([]byte{byte(i + 1)}, 20), Percent: 100, ChainId: chainID}}}, SlashRecipients: &lib.SlashRecipients{}}
+		}
+		w.tagOf[hex.EncodeToString(blockHash(w.values[tag]))+hex.EncodeToString(w.resOf[tag].Hash())] = tag
 	}
 	cv := &lib.ConsensusValidators{}
 	for i, n := range names {
